@@ -2,14 +2,14 @@
 #include "corpus.hpp"
 
 std::string Recipe::key() const {
-  return fmt("ch=%d rate=%ld q=%.4f mode=%d nom=%ld n=%lld sig=%d seed=%llu nc=%d bs64=%d cut=%d", ch, rate, q, mode, nominal, (long long)n, sig, (unsigned long long)seed, ncomm, bs64, cut);
+  return fmt("ch=%d rate=%ld q=%.4f mode=%d nom=%ld n=%lld sig=%d seed=%llu nc=%d bs64=%d cut=%d mute=%d", ch, rate, q, mode, nominal, (long long)n, sig, (unsigned long long)seed, ncomm, bs64, cut, mute);
 }
 void Recipe::to(Rec &r) const {
-  r.set("ch", ch).set("rate", rate).setf("q", q).set("mode", mode).set("nom", nominal).set("n", n).set("sig", sig).setu("seed", seed).set("nc", ncomm).set("bs64", bs64); if (cut) r.set("cut", cut);
+  r.set("ch", ch).set("rate", rate).setf("q", q).set("mode", mode).set("nom", nominal).set("n", n).set("sig", sig).setu("seed", seed).set("nc", ncomm).set("bs64", bs64); if (cut) r.set("cut", cut); if (mute) r.set("mute", mute);
 }
 Recipe Recipe::from(const Rec &r) {
   Recipe x; x.ch = (int)r.i("ch", 2); x.rate = r.i("rate", 44100); x.q = r.f("q", 0.4); x.mode = (int)r.i("mode", 0); x.nominal = r.i("nom", 0);
-  x.n = r.i("n", 20000); x.sig = (int)r.i("sig", 0); x.seed = r.u("seed", 1); x.ncomm = (int)r.i("nc", 2); x.bs64 = (int)r.i("bs64", 0); x.cut = (int)r.i("cut", 0);
+  x.n = r.i("n", 20000); x.sig = (int)r.i("sig", 0); x.seed = r.u("seed", 1); x.ncomm = (int)r.i("nc", 2); x.bs64 = (int)r.i("bs64", 0); x.cut = (int)r.i("cut", 0); x.mute = (int)r.i("mute", 0);
   return x;
 }
 
@@ -24,6 +24,7 @@ struct SigGen {
   }
   float sample(int c, int64_t t) {
     int nt = (int)f.size() / r.ch; double v = 0;
+    if (c < 31 && ((r.mute >> c) & 1)) return 0.f;
     switch (r.sig) {
       case 1: return 0.f;                                   // silence
       case 5: {                                             // low-level noise only
@@ -53,6 +54,11 @@ Pkt from_op(const ogg_packet &op) {
 }
 std::map<std::string, std::shared_ptr<Link>> g_cache;
 }  // namespace
+ogg_packet pkt_to_op(const Pkt &p) { return to_op(p); }
+Pkt pkt_from_op(const ogg_packet &op) { return from_op(op); }
+Signal::Signal(const Recipe &r) : impl(new SigGen(r)) {}
+Signal::~Signal() { delete (SigGen *)impl; }
+float Signal::at(int c, int64_t t) { return ((SigGen *)impl)->sample(c, t); }
 
 int decode_packets(const std::vector<Pkt> &hdr, const std::vector<Pkt> &audio, int halfrate,
                    std::vector<std::vector<float>> &pcm, std::vector<int> *chunks) {
